@@ -381,8 +381,23 @@ func genWireToken(c *choice.Ctx, p int, variant int) *wireToken {
 	}
 	emit(k.client, "client", clientClasses())
 	emit(k.lc, "lifecycle", lifecycleClasses())
-	emit(k.impl, "impl", bstrClasses([]int{32}, []int{0, 31, 33}, false, func(n int) []byte { return pat(n, 0x10) },
-		func(a *refmodel.Claims, b []byte) { a.ImplID = bp(b) }, nil))
+	{
+		cls := bstrClasses([]int{32}, []int{0, 31, 33}, false, func(n int) []byte { return pat(n, 0x10) },
+			func(a *refmodel.Claims, b []byte) { a.ImplID = bp(b) }, nil)
+		// a conformant value whose bytes contain the encoding of the other profile's profile claim
+		var imp []byte
+		if p == 1 {
+			imp = append([]byte{0x19, 0x01, 0x09, 0x78, 0x18}, []byte(refmodel.P2Name)...)
+		} else {
+			imp = append([]byte{0x3a, 0x00, 0x01, 0x24, 0xf7, 0x71}, []byte(refmodel.P1Name)...)
+		}
+		for len(imp) < 32 {
+			imp = append(imp, 0)
+		}
+		imp = imp[:32]
+		cls = append(cls, wcls{"bstr32-containing-an-encoded-profile-claim", func() *mcbor.Node { return mcbor.B(imp) }, wOK, func(a *refmodel.Claims) { a.ImplID = bp(imp) }})
+		emit(k.impl, "impl", cls)
+	}
 	if p == 1 {
 		emit(k.boot, "boot", bstrClasses([]int{32}, []int{0, 8, 31, 33}, false, func(n int) []byte { return pat(n, 0x20) },
 			func(a *refmodel.Claims, b []byte) { a.BootSeed = bp(b) }, nil))
@@ -563,7 +578,7 @@ func genWireToken(c *choice.Ctx, p int, variant int) *wireToken {
 		emit(k.vsi, "vsi", cls)
 	}
 	// extra keys and map-level shape
-	xk := c.Choose("extra-keys", 17)
+	xk := c.Choose("extra-keys", 20)
 	if xk != 0 {
 		t.devs = append(t.devs, fmt.Sprintf("extra-keys=%d", xk))
 	}
@@ -598,6 +613,13 @@ func genWireToken(c *choice.Ctx, p int, variant int) *wireToken {
 		for i := 0; i < n; i++ {
 			t.tree.Put(mcbor.U(uint64(70000+i)), mcbor.U(uint64(i)))
 		}
+	case 17, 18, 19: // one unsigned key above MaxInt64 (not congruent to any claim key) and as many small unknown keys as make the map
+		// hold exactly 255 / 256 / 257 entries
+		t.tree.Put(mcbor.U(1<<63+5), mcbor.U(0))
+		want := map[int]int{17: 255, 18: 256, 19: 257}[xk]
+		for i := 0; len(t.tree.Pairs) < want; i++ {
+			t.tree.Put(mcbor.U(uint64(80000+i)), mcbor.U(uint64(i%24)))
+		}
 	case 14, 15, 16: // unknown keys congruent to a profile key modulo 2^32 / 2^64, holding a profile name
 		other := refmodel.P2Name
 		if p == 2 {
@@ -617,7 +639,7 @@ func genWireToken(c *choice.Ctx, p int, variant int) *wireToken {
 		t.st = wOpen
 		t.open = append(t.open, "bstr-map-key")
 	}
-	ms := c.Choose("map-shape", 14)
+	ms := c.Choose("map-shape", 16)
 	if ms != 0 {
 		t.devs = append(t.devs, fmt.Sprintf("map-shape=%d", ms))
 	}
@@ -647,6 +669,14 @@ func genWireToken(c *choice.Ctx, p int, variant int) *wireToken {
 			t.st = wOpen
 			t.open = append(t.open, "duplicate-key")
 		}
+	case 14, 15: // two tags around the map (14: 55799 outside; 15: two other tags)
+		if ms == 14 {
+			t.tree = mcbor.Tg(55799, mcbor.Tg(1000, t.tree))
+		} else {
+			t.tree = mcbor.Tg(1000, mcbor.Tg(1001, t.tree))
+		}
+		t.st = wOpen
+		t.open = append(t.open, "tagged-map")
 	case 8:
 		t.tree = mcbor.Tg(55799, t.tree)
 		t.st = wOpen
